@@ -1,3 +1,7 @@
 pub mod lex;
 pub mod parse;
+pub mod astwalk;
+pub mod ser;
+pub mod schema;
+pub mod introspect;
 pub mod schema_walk;
